@@ -91,6 +91,12 @@ def bootAt (w : World) (P : String) (defaults : Bool) : World :=
 def boot (w : World) (principal : String) (defaults : Bool) : World :=
   bootAt w (principalPath principal) defaults
 
+/-- `web.main` / `run_simple_server`: the principal is marked in any case and created (with or
+    without the defaults) when `--autocreate` or `--defaults` is given -/
+def bootSimple (w : World) (principal : String) (autocreate defaults : Bool) : World :=
+  if autocreate || defaults then boot w principal defaults
+  else w.markPrincipal (principalPath principal)
+
 /-- the start performed by `xandikos/wsgi.py`: the principal is created (with or without the
     defaults) only when its path does not resolve yet; it is marked as principal in any case -/
 def bootModule (w : World) (principal : String) (autocreate defaults : Bool) : World :=
